@@ -38,6 +38,11 @@ thread_local! {
 
 static HOOK: Once = Once::new();
 
+/// location and message of the most recent panic on this thread, if any
+pub fn last_panic() -> Option<(String, String)> {
+    LAST.with(|l| l.borrow().clone())
+}
+
 pub fn install_hook() {
     HOOK.call_once(|| {
         let verbose = std::env::var("VERIF_PANIC_VERBOSE").is_ok();
